@@ -1,3 +1,5 @@
+//go:build all || c07
+
 package props
 
 import (
